@@ -132,3 +132,46 @@ if __name__ == "__main__":
         sys.exit(run(sys.argv[2], sys.argv[3:]))
     if cmd == "suite":
         sys.exit(suite(sys.argv[2]))
+    if cmd == "matrix":
+        pass  # handled at the end of the file (after `matrix` is defined)
+
+
+def matrix(sids, props, jobs=6):
+    """Run every listed property's quick check against every listed seed (one seed at a time, the
+    properties of a seed in parallel) and record exit codes in seeded/<id>/meta.json["checks"].
+    NOTE: checks regenerate lean/FunsorVerif/Gen/* and evidence/* from the MUTANT tree; re-run the
+    checks on /repo afterwards before committing evidence."""
+    from concurrent.futures import ThreadPoolExecutor
+    for sid in sids:
+        d = SEEDED / sid
+        meta = json.loads((d / "meta.json").read_text())
+        results = meta.setdefault("checks", {})
+        with Worktree(sid) as wt:
+            r = sh(["git", "-C", wt, "apply", str(d / "patch.diff")])
+            if r.returncode:
+                print(sid, "patch does not apply:", r.stdout)
+                continue
+
+            def one(p):
+                t0 = time.time()
+                env = dict(os.environ, FUNSOR_REPO=wt)
+                try:
+                    r = sh([str(VERIF / "check"), p, "--tier", "quick"], cwd=VERIF, env=env, timeout=1800)
+                    lines = [l for l in r.stdout.splitlines() if "conda" not in l]
+                    viol = [l for l in lines if l.startswith("VIOLATION")]
+                    return p, {"exit": r.returncode, "violations": viol[:3], "wall_s": round(time.time() - t0, 1)}
+                except subprocess.TimeoutExpired:
+                    return p, {"exit": "timeout", "violations": [], "wall_s": round(time.time() - t0, 1)}
+            with ThreadPoolExecutor(jobs) as ex:
+                for p, res in ex.map(one, props):
+                    old = results.get(p, {})
+                    old.update(res)
+                    results[p] = old
+        (d / "meta.json").write_text(json.dumps(meta, indent=1))
+        print(sid, {p: results[p]["exit"] for p in props})
+
+
+if __name__ == "__main__" and len(sys.argv) > 1 and sys.argv[1] == "matrix":
+    sids = sys.argv[2].split(",")
+    props = sys.argv[3].split(",")
+    matrix(sids, props)
